@@ -44,7 +44,7 @@ Definition dispatch (op : Z) (args : list tok) : value :=
     | _ => VBad
     end
   | _ => if op =? 601 then dispatch_pktz op args
-         else if (op =? 2001) || (op =? 2002) then dispatch_rtp op args
+         else if (op =? 2001) || (op =? 2002) || (op =? 2003) then dispatch_rtp op args
          else if (100 <=? op) && (op <? 600) then dispatch_rtp op args
          else if ((1700 <=? op) && (op <? 2000)) || (op =? 701) || (op =? 702) || (op =? 703) then dispatch_ext op args
          else if (800 <=? op) && (op <? 1600) then dispatch_codecs op args else VBad
